@@ -346,3 +346,25 @@ package vmm
 //@   loop 1 invariant rsvAddr >= earlyReserveLastUsed && rsvAddr <= tempMappingAddr && rsvAddr&0xfff == 0 && wfReserve() && cpu.cr3 == old(cpu.cr3) && recursiveSlotOK() && mem == m0 && uintptr(kernelPDT.pdtFrame) < 0x10000000000
 //@   loop 1 invariant n: mapCalls == m1 + ((rsvAddr - earlyReserveLastUsed) >> 12) && m1 < 0x4000000000000
 //@   loop 1 invariant log: forall(k, uintptr, k < (rsvAddr - earlyReserveLastUsed) >> 12 ==> mapLogPage[m1 + k] == mm.Page(earlyReserveLastUsed >> 12) + mm.Page(k) && mapLogFlags[m1 + k] == FlagPresent|FlagRW && mapLogFrame[m1 + k] == mm.Frame((mem64(pte3(earlyReserveLastUsed + (k << 12))) & 0x000ffffffffff000) >> 12))
+
+// ---- vmm.Init (C05, C06): the boot-time entry point of the package ---------------------------
+// Init composes the two verified steps: the kernel's own address space is built and switched to
+// first (setupPDTForKernel, C05), and only then is the shared zero frame reserved and its
+// protection switched on (reserveZeroedFrame, C06). A failure of the first step leaves the old
+// address space active and the zero frame unprotected and unreserved; success of the whole
+// leaves the kernel table active and the protection on.
+// ASSUMED: gate.HandleInterrupt (assembly) only records the handler in the interrupt table; it is
+// seen as an event counted in a ghost, so that Init's contract can say when handlers go in.
+//@ ghost handlersInstalled uintptr
+//@ func gate.HandleInterrupt(intNumber gate.InterruptNumber, istOffset uint8, handler func(*gate.Registers))
+//@   trusted
+//@   modifies handlersInstalled
+//@   ensures handlersInstalled == old(handlersInstalled) + 1
+//@ func Init(kernelPageOffset uintptr) (err *kernel.Error)
+//@   property C05 C06
+//@   requires wfReserve() && recursiveSlotOK() && cpu.cr3 < 0x10000000000000 && mapCalls < 0x1000000000000 && !protectReservedZeroedPage
+//@   modifies handlersInstalled, ReservedZeroedFrame, protectReservedZeroedPage, kernelPDT.pdtFrame, mm.allocState, elems(*kernel.Error), mem, mapCalls, mapLogPage, mapLogFrame, mapLogFlags, pageTables, unmapCalls, unmapLogPage, cpu.flushes, cpu.flushLog, cpu.cr3
+//@   ensures ok: err == nil ==> cpu.cr3 == uintptr(kernelPDT.pdtFrame) << 12 && protectReservedZeroedPage
+//@   ensures fail: err != nil ==> !protectReservedZeroedPage
+//@   ensures handlers: (err == nil ==> handlersInstalled == old(handlersInstalled) + 2) && (handlersInstalled == old(handlersInstalled) || handlersInstalled == old(handlersInstalled) + 2)
+//@   ensures notactive: err != nil && cpu.cr3 != old(cpu.cr3) ==> cpu.cr3 == uintptr(kernelPDT.pdtFrame) << 12
